@@ -359,3 +359,53 @@ pub fn plonk_verdict(res: anyhow::Result<()>) -> String {
         }
     }
 }
+
+// ---------------------------------------------------------------- compressed proofs (C17)
+use plonky2::fri::proof::CompressedFriProof;
+use plonky2::plonk::proof::CompressedProofWithPublicInputs;
+
+impl Toks {
+    /// `CompressedFriProof`: the maps are dumped as `count (key value)*` in increasing key order
+    /// (mirrored by `pCompressedFriProof` of lean/P2/Drv/C17.lean).
+    pub fn compressed_fri_proof(&mut self, p: &CompressedFriProof<F, H, 2>) {
+        self.n(p.commit_phase_merkle_caps.len());
+        for c in &p.commit_phase_merkle_caps {
+            self.cap(c)
+        }
+        let r = &p.query_round_proofs;
+        self.ns(&r.indices);
+        let mut keys: Vec<usize> = r.initial_trees_proofs.keys().copied().collect();
+        keys.sort();
+        self.n(keys.len());
+        for k in keys {
+            self.n(k);
+            let t = &r.initial_trees_proofs[&k].evals_proofs;
+            self.n(t.len());
+            for (leaf, mp) in t {
+                self.fs(leaf);
+                self.digests(&mp.siblings);
+            }
+        }
+        self.n(r.steps.len());
+        for m in &r.steps {
+            let mut ks: Vec<usize> = m.keys().copied().collect();
+            ks.sort();
+            self.n(ks.len());
+            for k in ks {
+                self.n(k);
+                self.es(&m[&k].evals);
+                self.digests(&m[&k].merkle_proof.siblings);
+            }
+        }
+        self.es(&p.final_poly.coeffs);
+        self.f(p.pow_witness);
+    }
+    pub fn compressed_proof_with_pis(&mut self, p: &CompressedProofWithPublicInputs<F, C, 2>) {
+        self.cap(&p.proof.wires_cap);
+        self.cap(&p.proof.plonk_zs_partial_products_cap);
+        self.cap(&p.proof.quotient_polys_cap);
+        self.opening_set(&p.proof.openings);
+        self.compressed_fri_proof(&p.proof.opening_proof);
+        self.fs(&p.public_inputs);
+    }
+}
